@@ -11,8 +11,10 @@ REL=$1; shift
 ROOT=$(cd "$(dirname "$0")" && pwd)
 export GOFLAGS=-mod=mod GOPROXY=off GOSUMDB=off GOTOOLCHAIN=local
 TAG=$(echo "$REL" | tr / _)
-W=$(mktemp -d /tmp/mutrun.XXXXXX); M=$(mktemp -d /tmp/mutgen.XXXXXX)
-trap 'git -C /repo worktree remove --force "$W" >/dev/null 2>&1; rm -rf "$W" "$M" "$ROOT/.build/mut-out.$$"' EXIT
+W=$(mktemp -d /tmp/mutrun.XXXXXX); M=$(mktemp -d /tmp/mutgen.XXXXXX); SNAP=$(mktemp -d /tmp/mutsnap.XXXXXX)
+trap 'git -C /repo worktree remove --force "$W" >/dev/null 2>&1; rm -rf "$W" "$M" "$SNAP"' EXIT
+# the checks run from a snapshot of the harness taken now, so that work on /verif during a long run cannot disturb it
+rsync -a --exclude .git --exclude .build --exclude seeded --exclude evidence --exclude replays --exclude mutation "$ROOT"/ "$SNAP"/
 git -C /repo worktree add --detach "$W" HEAD >/dev/null 2>&1 || { echo "worktree failed"; exit 2; }
 (cd "$ROOT/harness" && go build -o "$M/mutgen" ./cmd/mutgen) || exit 2
 "$M/mutgen" "/repo/$REL" "$M/out" || exit 2
@@ -33,7 +35,7 @@ while read -r line; do
   else
     verdict=SURVIVED
     for c in "$@"; do
-      out=$(ulimit -v 48000000; VERIF_OUT="$ROOT/.build/mut-out.$$" VERIF_REPO="$W" timeout 1500 "$ROOT/check" "$c" quick 2>&1); rc=$?
+      out=$(ulimit -v 48000000; VERIF_OUT="$SNAP/.build/out" VERIF_REPO="$W" timeout 1500 "$SNAP/check" "$c" quick 2>&1); rc=$?
       if [ $rc = 2 ]; then verdict=harness-nobuild; break; fi
       if echo "$out" | grep -q '^VIOLATION'; then verdict="killed:$c"; key=$(echo "$out" | grep -A1 '^VIOLATION' | sed -n 2p | sed 's/^ *key=//' | cut -c1-160 | tr '\t' ' '); break; fi
       if [ $rc != 0 ]; then verdict="killed:$c"; key="rc=$rc without a VIOLATION line: $(echo "$out" | tail -1 | cut -c1-120)"; break; fi
